@@ -35,7 +35,7 @@ def random_quat(rng):
     return v / np.linalg.norm(v)
 
 
-def run_grid(ctx, rng, spec, molname, nframes, outliers, d):
+def run_grid(ctx, rng, spec, molname, nframes, outliers, d, use_pt=False):
     import MDAnalysis as mda
     from MDAnalysis.coordinates.memory import MemoryReader
     from molgri.space.fullgrid import FullGrid
@@ -63,11 +63,18 @@ def run_grid(ctx, rng, spec, molname, nframes, outliers, d):
         r = rng.uniform(0.6 * tg[0], 1.2 * bound)
         v = np.array([rng.gauss(0, 1) for _ in range(3)])
         placements.append((v / np.linalg.norm(v) * r, random_quat(rng)))
-    frames = np.zeros((len(placements), 1 + len(ref), 3), dtype=np.float32)
-    for k, (p, q) in enumerate(placements):
-        frames[k, 1:] = (quat_to_matrix(q) @ ref.T).T + p
-    merged = mda.Merge(m1.atoms, m2.atoms)
-    u = mda.Universe(merged._topology, frames, format=MemoryReader)
+    if use_pt:
+        # the package's own pseudotrajectory of the whole grid, in row order: must be assigned back to 0, 1, 2, ...
+        from molgri.molecules.pts import Pseudotrajectory
+        placements = [(row[:3].copy(), row[3:].copy() / np.linalg.norm(row[3:])) for row in arr]
+        with quiet():
+            u = Pseudotrajectory(m1, m2, arr).get_pt_as_universe()
+    else:
+        frames = np.zeros((len(placements), 1 + len(ref), 3), dtype=np.float32)
+        for k, (p, q) in enumerate(placements):
+            frames[k, 1:] = (quat_to_matrix(q) @ ref.T).T + p
+        merged = mda.Merge(m1.atoms, m2.atoms)
+        u = mda.Universe(merged._topology, frames, format=MemoryReader)
     recs = []
     err, got = "", None
     try:
@@ -115,6 +122,10 @@ def run(ctx: Ctx):
     for gi, spec in enumerate(grids):
         for mi, molname in enumerate(mols if thorough else [mols[gi % len(mols)]]):
             recs += run_grid(ctx, rng, spec, molname, nframes, outliers=bool((gi + mi) % 2), d=d)
+    # the grid's own pseudotrajectory (real Pseudotrajectory class), every row
+    recs += run_grid(ctx, rng, ("5", "7", "[0.2, 0.35]"), "generic4", 0, outliers=False, d=d, use_pt=True)
+    if thorough:
+        recs += run_grid(ctx, rng, ("cube4D_9", "cube3D_9", "[0.2, 0.3, 0.45]"), "five", 0, outliers=True, d=d, use_pt=True)
     for i, r in enumerate(recs):
         r["tid"] = i
     slim = [{k: v for k, v in r.items() if k != "placement"} for r in recs]
